@@ -15,7 +15,9 @@ from klongpy.core import KGChar, KGSym
 
 PROPERTY = "C02"
 USES_SYMNP = True
-I.compile_expr = lambda ast, klong: None
+_REAL_COMPILE = I.compile_expr
+_NO_COMPILE = lambda ast, klong: None
+I.compile_expr = _NO_COMPILE
 K = W.interpreter()
 K('g::{(2*x)+(3*y)+1}')            # non-commutative, non-associative, linear: distinct application trees give distinct forms
 K('h::{(2*x)+1}')
@@ -256,15 +258,81 @@ def adv(v: List[int], w: List[int], n: int) -> bool:
         return True
     if ("*" in name.split()[-1] or name.startswith(("iterate", "scan-iterate"))) and not (-50 <= n <= 50):
         return True
+    compiled = bool(CFG.get("compiled"))
+    if compiled:
+        # the same program with the expression compiler ON: the operand comes from a variable, so |/m, +\\v ... are compiled;
+        # whatever runs, the value must still be the adverb's expansion
+        K._parse_cache.clear(); K._compiled_cache.clear()
+        I.compile_expr = _REAL_COMPILE
     try:
         _bind(v, w, n)
         got = K(text)
+        if compiled:
+            got2 = K("{%s}()" % text)          # and inside a function body (second compiled call site)
+            if W.canon(got2) != W.canon(got):
+                return verdict(False)
     except Exception as e:
         if type(e).__name__ == "OutsideModel":
             cut(str(e)[:60]); return True
         raise
+    finally:
+        I.compile_expr = _NO_COMPILE
     want = oracle(v, w, n)
     return verdict(W.canon(got) == W.canon(want))
+
+
+# ---------------------------------------------------------------------------------------------------- a named verb is looked up at every evaluation
+REBIND = {
+    "over": ("f/v", lambda fn, v, w, n: x_over(fn, v), None),
+    "scan": ("f\\v", lambda fn, v, w, n: x_scan(fn, v), None),
+    "over-neutral": ("n f/v", lambda fn, v, w, n: x_over_neutral(fn, n, v), None),
+    "each-left": ("n f:\\v", lambda fn, v, w, n: x_each_left(fn, n, v), lambda v, w, n: len(v) > 0),
+    "each-right": ("n f:/v", lambda fn, v, w, n: x_each_right(fn, n, v), lambda v, w, n: len(v) > 0),
+    "each2": ("v f'w", lambda fn, v, w, n: x_each2(fn, v, w), lambda v, w, n: len(v) > 0 and len(w) > 0),
+    "each-pair": ("f:'v", lambda fn, v, w, n: x_each_pair(fn, v), None),
+}
+_DEFS = [("{x-y}", lambda x, y: x - y), ("{(2*x)+(3*y)+1}", lambda x, y: 2 * x + 3 * y + 1), ("pg", None), ("{y-x}", lambda x, y: y - x)]
+
+
+def adv_rebind(v: List[int], w: List[int], n: int, d1: int, d2: int, how: int) -> bool:
+    """
+    pre: len(v) <= CFG['n'] and len(w) <= CFG['n']
+    pre: 0 <= d1 <= CFG.get('d1max', 3) and 0 <= d2 <= 3 and d1 != d2
+    pre: 0 <= how <= 2
+    post: _
+    """
+    # The verb of an adverb is a NAME.  The same program text is evaluated, the name is rebound (to another Klong function or
+    # to a Python callable), and the same text is evaluated again - at top level (parse-cache hit), inside a function defined
+    # before the rebinding, and through a variable holding the text's value is NOT enough: the second result must be the
+    # expansion over the NEW verb.
+    enter()
+    text, oracle, pre = REBIND[CFG["prog"]]
+    v = list(v); w = list(w)
+    if pre is not None and not pre(v, w, n):
+        return True
+    defs = [pick(_DEFS, d1), pick(_DEFS, d2)]
+    fns = [DY["pg"] if d[1] is None else _ext(d[1]) for d in defs]
+    K._parse_cache.clear(); K._compiled_cache.clear()
+    try:
+        _bind(v, w, n)
+        K('f::%s' % defs[0][0])
+        K('wrap::{%s}' % text)
+        r1 = K(text) if how != 1 else K('wrap()')
+        if W.canon(r1) != W.canon(oracle(fns[0], v, w, n)):
+            return verdict(False)
+        if how == 2:
+            if defs[1][1] is None:
+                K('f::pg')
+            else:
+                K['f'] = (lambda x, y, _f=defs[1][1]: _f(x, y))
+        else:
+            K('f::%s' % defs[1][0])
+        r2 = K(text) if how != 1 else K('wrap()')
+    except Exception as e:
+        if type(e).__name__ == "OutsideModel":
+            cut(str(e)[:60]); return True
+        raise
+    return verdict(W.canon(r2) == W.canon(oracle(fns[1], v, w, n)))
 
 
 def adv_str(n: int, i: int) -> bool:
@@ -359,4 +427,12 @@ def obligations(tier):
         obs.append({"name": name, "fn": "adv", "cfg": {"prog": name, "n": n}, "timeout": 150 if q else 900})
     for name in STR_PROGS:
         obs.append({"name": name, "fn": "adv_str", "cfg": {"prog": name, "n": 4}, "timeout": 100})
+    # the same adverb programs with the expression compiler switched ON (operator verbs the compiler knows, every operand class)
+    for name in PROGS:
+        kind, _, f = name.rpartition(" ")
+        if kind in ("over", "scan", "over atom", "over matrix", "scan matrix", "over nested", "scan nested") and f in ("+", "*", "|", "&", "-", ","):
+            obs.append({"name": name + " [compiler on]", "fn": "adv", "cfg": {"prog": name, "n": n, "compiled": True}, "timeout": 150 if q else 900})
+    for name in REBIND:
+        obs.append({"name": "verb rebound between two evaluations: " + name, "fn": "adv_rebind", "cfg": {"prog": name, "n": 2 if q else 3, "d1max": 0 if q else 3},
+                    "timeout": 400 if q else 1500})
     return obs
